@@ -1,4 +1,6 @@
 import AslModel.Lemmas.AddrRes
+import AslModel.Lemmas.AddrResMix
+import AslModel.Lemmas.AddrResZero
 /-!
 # C10, reservation part — the program counter across `DN/DB/DW/DD/DQ` reservations
 
@@ -9,11 +11,15 @@ Model: `Model/AddrRes.lean` (`CodeLen` of a data statement = the transcription o
 list stands for a number of elements, `n DUP (…)` multiplies the number of its body, a statement of `e` elements of `b` bits
 occupies `⌈e·b / unit bits⌉` address units).
 
-All theorems are for **every pure reservation tree** (`pureArgs`: loose `?` and `n DUP (…)`, `n ≥ 1`, nested to any depth,
-in any order), every unit size `g` and element size `bits` with one dividing the other (4/8/16/32/64 bits against units of
-1, 2 or 4 bytes), i.e. for DUP groups that start and end anywhere inside an address unit.  Outside the theorems (only the
-correspondence test covers them): constant statements, mixtures (refused), `0 DUP`, the C widths of the fill counters
-(32 bit; counts in the check are small).
+The theorems are for **every pure reservation tree** (`pureArgs`: loose `?` and `n DUP (…)`, `n ≥ 1`, nested to any depth, in any
+order), **every reservation tree with `0 DUP` groups** (`res0Args`: counts `n ≥ 0`; a `0 DUP` group contributes nothing,
+`C10_res_zero_dup_*`) and **every mixture** of placeholders and integer constants (`plainArgs`, counts `n ≥ 0`, with both kinds outside
+`0 DUP` bodies: refused by MODEL and SPEC, `C10_res_mixture_refused`), for every unit size `g` and element size `bits` with one dividing the other
+(4/8/16/32/64 bits against units of 1, 2 or 4 bytes), i.e. for DUP groups that start and end anywhere inside an address unit; the
+whole-program refinement (`C10_res_program_refines_ext`) holds for every program whose data statements are of these three kinds.
+Outside the theorems (only the correspondence test covers them): the *bytes* of constant statements (the packing of `Put4I/Put8I…`
+and `Replicate…` is C09's subject, `Props/C09_Ext.lean`) and with them the advance of constant statements; the C widths of the fill
+counters (32 bit; counts in the check are small).
 -/
 namespace AslModel.C10
 open AslModel.PFile (Byte b)
@@ -99,6 +105,117 @@ example : ∀ st ∈ [(⟨some 1, .dx 8 (family 1 3 0)⟩ : AddrRes.Stmt), ⟨so
   rcases hst with rfl | rfl | rfl
   · exact ⟨by decide, by decide, fun _ => ⟨by simp, by simp⟩⟩
   · exact ⟨by decide, by decide, fun _ => ⟨by simp, by simp⟩⟩
+  · trivial
+
+/-! ## reservations with `0 DUP` groups -/
+
+/-- **`CodeLen` of a reservation with `0 DUP` groups is the manual's unit count**: a group with count 0 (its body is not looked
+at) contributes no element; when nothing at all is reserved `DecodeIntelDx` hands back `CodeLen = 0`. -/
+theorem C10_res_zero_dup_units (c : MCfg) (p : XP) (g bits : Nat) (t : List Byte) (as : XArgs)
+    (hp : res0Args as = true) (hg : 0 < g) (hb : 0 < bits)
+    (hdiv : (8 * g) % bits = 0 ∨ bits % (8 * g) = 0) :
+    decodeIntelDxX c p g bits t as = .ok ⟨none, resOut (resUnits g bits (elemsArgs as)), []⟩ :=
+  res0_stmt_units c p g bits t as hp hg hb hdiv
+
+/-- **MODEL = SPEC** on these statements: both advance by `⌈elements · bits / unit bits⌉` units and place nothing. -/
+theorem C10_res_zero_dup_model_eq_spec (c : MCfg) (p : XP) (big : Bool) (g bits : Nat) (as : XArgs)
+    (hp : res0Args as = true) (hg : 0 < g) (hb : 0 < bits)
+    (hdiv : (8 * g) % bits = 0 ∨ bits % (8 * g) = 0) :
+    modelLay c p g bits as = specLay big g bits as ∧ specLay big g bits as = .adv (resUnits g bits (elemsArgs as)) [] := by
+  obtain ⟨h1, h2⟩ := lay_res0_model_eq_spec c p big g bits as hp hg hb hdiv
+  exact ⟨h1.trans h2.symm, h2⟩
+
+/-- `db ?, 0 dup (?,?), 2 dup (?, 0 dup (?))` on 16-bit units: 3 elements, 2 units; `dw 0 dup (?)`: nothing -/
+def exZero : XArgs :=
+  .cons .q (.cons (.dup 0 (.cons .q (.cons .q .nil))) (.cons (.dup 2 (.cons .q (.cons (.dup 0 (.cons .q .nil)) .nil))) .nil))
+example : res0Args exZero = true ∧ elemsArgs exZero = 3 ∧ resUnits 2 8 3 = 2 := by decide
+example : decodeIntelDxX ⟨2, false, false, false, false, true, true⟩ ⟨false, true, true⟩ 2 8 [] exZero = .ok ⟨none, .space 2, []⟩ := by decide
+example : res0Args (.cons (.dup 0 (.cons .q .nil)) .nil) = true ∧
+    modelLay ⟨2, false, false, false, false, true, true⟩ ⟨false, true, true⟩ 2 16 (.cons (.dup 0 (.cons .q .nil)) .nil) = .adv 0 [] := by decide
+
+/-! ## mixtures -/
+
+/-- **a statement that holds placeholders and constants is refused** - by `DecodeIntelDx` (`SetDSFlag` refuses the first
+argument of the other kind, wherever in the tree it stands) and by the manual ("reserved memory and constant definitions must
+not be mixed within one instruction"): for every tree of `?`, integers and `n DUP (…)`, `n ≥ 0`, that stands for both kinds
+(`hasQs`, `hasCs`: what is written in the body of a `0 DUP` does not count - the code never looks at it, the manual's rule gives
+it no element). -/
+theorem C10_res_mixture_refused (c : MCfg) (p : XP) (big : Bool) (g bits : Nat) (as : XArgs)
+    (hp : plainArgs as = true) (hq : hasQs as = true) (hc : hasCs as = true) (hg : 0 < g) (hb : 0 < bits) :
+    modelLay c p g bits as = .reject ∧ specLay big g bits as = .reject :=
+  lay_mixture c p big g bits as hp hq hc hg hb
+
+/-- `db ?, 3 dup (?, 0 dup (?), 2 dup (7))` - the constant sits two levels down -/
+def exMix : XArgs :=
+  .cons .q (.cons (.dup 3 (.cons .q (.cons (.dup 0 (.cons .q .nil)) (.cons (.dup 2 (.cons (.int 7) .nil)) .nil)))) .nil)
+example : plainArgs exMix = true ∧ hasQs exMix = true ∧ hasCs exMix = true := by decide
+example : decodeIntelDxX ⟨1, false, false, false, false, true, true⟩ ⟨false, true, true⟩ 1 8 [] exMix = .err := by decide
+
+/-- **a `0 DUP` beside the other kind is no mixture**: `db 0 dup (?), 5` lays `05` and `db ?, 0 dup (5)` reserves one byte - in the
+MODEL (= the real assembler, see the report) and, since `hasQ` / `hasC` leave the bodies of `DUP`s with a count ≤ 0 out, in the
+SPEC.  (Before that correction `specLay` refused both, and the generator of the check left such statements out.) -/
+theorem C10_res_zero_dup_beside_other_kind :
+    modelLay ⟨1, false, false, false, false, true, true⟩ ⟨false, true, true⟩ 1 8 (.cons (.dup 0 (.cons .q .nil)) (.cons (.int 5) .nil)) = .adv 1 [5] ∧
+    specLay false 1 8 (.cons (.dup 0 (.cons .q .nil)) (.cons (.int 5) .nil)) = .adv 1 [5] ∧
+    modelLay ⟨1, false, false, false, false, true, true⟩ ⟨false, true, true⟩ 1 8 (.cons .q (.cons (.dup 0 (.cons (.int 5) .nil)) .nil)) = .adv 1 [] ∧
+    specLay false 1 8 (.cons .q (.cons (.dup 0 (.cons (.int 5) .nil)) .nil)) = .adv 1 [] := by
+  decide
+
+/-! ## whole programs, all three kinds of statements -/
+
+/-- a data statement of one of the kinds the theorems above cover, of a size that divides / is divided by every unit size -/
+def CoveredStmt (gran : Nat → Nat) (st : AddrRes.Stmt) : Prop :=
+  match st.op with
+  | .dx bits as =>
+    (pureArgs as = true ∨ res0Args as = true ∨ (plainArgs as = true ∧ hasQs as = true ∧ hasCs as = true)) ∧ 0 < bits ∧
+      ∀ s, 0 < gran s ∧ ((8 * gran s) % bits = 0 ∨ bits % (8 * gran s) = 0)
+  | _ => True
+
+/-- **MODEL refines SPEC on whole programs** of labelled reservations (with or without `0 DUP` groups) and refused mixtures,
+interleaved with ORG, RORG, SEGMENT and label-only lines: every observation (error flag, program counter after each statement,
+active segment, value of each label, cells) of the model is the one the manual's rule gives. -/
+theorem C10_res_program_refines_ext (gran : Nat → Nat) (c : MCfg) (p : XP) (big : Bool) :
+    ∀ (prog : List AddrRes.Stmt) (a : A), (∀ st ∈ prog, CoveredStmt gran st) →
+      run gran (modelLay c p) a prog = run gran (specLay big) a prog
+  | [], _, _ => rfl
+  | st :: rest, a, h => by
+    have hs : step gran (modelLay c p) a st = step gran (specLay big) a st := by
+      have hc := h st (by simp)
+      obtain ⟨l, op⟩ := st
+      cases op with
+      | dx bits as =>
+        simp only [CoveredStmt] at hc
+        obtain ⟨hk, hb, hgr⟩ := hc
+        have hl : modelLay c p (gran a.seg) bits as = specLay big (gran a.seg) bits as := by
+          rcases hk with hk | hk | ⟨k1, k2, k3⟩
+          · exact lay_model_eq_spec c p big (gran a.seg) bits as hk (hgr a.seg).1 hb (hgr a.seg).2
+          · exact (C10_res_zero_dup_model_eq_spec c p big (gran a.seg) bits as hk (hgr a.seg).1 hb (hgr a.seg).2).1
+          · obtain ⟨m1, m2⟩ := lay_mixture c p big (gran a.seg) bits as k1 k2 k3 (hgr a.seg).1 hb
+            rw [m1, m2]
+        simp only [step, hl]
+      | org v => rfl
+      | rorg d => rfl
+      | seg s => rfl
+      | nop => rfl
+    simp only [run, hs]
+    cases hst : step gran (specLay big) a st with
+    | unspecified => rfl
+    | ok a' o =>
+      simp only
+      rw [C10_res_program_refines_ext gran c p big rest a' (fun s hs' => h s (by simp [hs']))]
+
+/-- AVR CODE at word 16: `N1: db ?, 0 dup (?,?), 2 dup (?, 0 dup (?))` / `N2: db ?, 3 dup (?, 2 dup (7))` (refused) / `N3:`:
+N1 = 16, the refused statement leaves the counter at 18 and defines no label, N3 = 18 -/
+example : run (fun _ => 2) (specLay false) ⟨1, fun _ => some 16⟩
+    [⟨some 1, .dx 8 exZero⟩, ⟨some 2, .dx 8 exMix⟩, ⟨some 3, .nop⟩] =
+    [⟨false, some 18, 1, some 16, []⟩, ⟨true, some 18, 1, none, []⟩, ⟨false, some 18, 1, some 18, []⟩] := by
+  decide
+example : ∀ st ∈ [(⟨some 1, .dx 8 exZero⟩ : AddrRes.Stmt), ⟨some 2, .dx 8 exMix⟩, ⟨some 3, .nop⟩], CoveredStmt (fun _ => 2) st := by
+  intro st hst
+  simp only [List.mem_cons, List.mem_nil_iff, or_false] at hst
+  rcases hst with rfl | rfl | rfl
+  · exact ⟨Or.inr (Or.inl (by decide)), by decide, fun _ => ⟨by simp, by simp⟩⟩
+  · exact ⟨Or.inr (Or.inr (by decide)), by decide, fun _ => ⟨by simp, by simp⟩⟩
   · trivial
 
 end AslModel.C10
